@@ -154,7 +154,7 @@ CfgOk(d, x) == LET p == ToPath(d.cfg, x) IN
    /\ \A i \in DOMAIN d.alts : d.alts[i].raised = "" /\ d.alts[i].same
    /\ ("default" \in DOMAIN d => d.default.raised = "" /\ d.default.same)
    /\ (p # <<>> => d.back.raised = "" /\ Same(d.back, x) /\ d.back.eq /\ d.back_str.raised = "" /\ d.back_str.eq)
-ToPathClauses(e) == LET x == ResolveFirst(e.call.segs)  o == e.obs IN
+ToPathClauses(e) == LET x == MkFromString([op |-> "sid", uri |-> e.call.uri, segs |-> e.call.segs, query |-> <<>>])  o == e.obs IN
   << C("self", Same(o.self, x)) >>
   \o [i \in DOMAIN o.cfgs |-> C("cfg_" \o o.cfgs[i].cfg, CfgOk(o.cfgs[i], x))]
   \o << C("noraise", \A i \in DOMAIN o.cfgs : o.cfgs[i].raised = "" /\ o.cfgs[i].kw.raised = ""),
@@ -274,7 +274,7 @@ Tag(e) ==
   ELSE IF e.call.op = "extrapolate" THEN
         "extrapolate:" \o (IF e.call.cfg.toX = <<>> THEN "none" ELSE IF Len(e.call.cfg.toX) = 1 THEN "one" ELSE "many")
                        \o (IF e.call.cfg.kps = <<>> THEN "" ELSE ":replace")
-  ELSE IF e.call.op = "topath" THEN LET x == ResolveFirst(e.call.segs) IN
+  ELSE IF e.call.op = "topath" THEN LET x == MkFromString([op |-> "sid", uri |-> e.call.uri, segs |-> e.call.segs, query |-> <<>>]) IN
         "topath:" \o (IF x.type = "" THEN "untyped" ELSE IF \E c \in PathConfigs : HasPath(c, x.type) THEN x.type ELSE "nopath")
   ELSE IF e.call.op = "frompath" THEN LET r == FromPath(e.call.cfg, e.obs.lexed) IN
         "frompath:" \o e.call.cfg \o ":" \o (IF r.amb THEN "ambiguous" ELSE IF r.sid.type = "" THEN "untyped" ELSE "typed")
